@@ -912,7 +912,7 @@ fn thread_cpu_ns() -> u64 {
 /// n and with 4n attributes is serialized (alone and inside an MPK-like prefix is not needed:
 /// the structure reader is shared) and deserialized; the CPU time of this thread - insensitive
 /// to machine load - must not grow much faster than the input. A quadratic reader gives a
-/// ratio near 16, a linear one near 4; the bound is 11 plus a constant allowance.
+/// ratio near 64, a linear one near 8; the bound is 24 plus a constant allowance.
 pub fn scale_probe(w: &mut World, n: usize) {
     use cosmian_cover_crypt::{EncryptionHint, QualifiedAttribute};
     let build = |count: usize| -> Option<Vec<u8>> {
@@ -923,7 +923,7 @@ pub fn scale_probe(w: &mut World, n: usize) {
         }
         s.serialize().ok().map(|b| b.to_vec())
     };
-    let (Some(small), Some(big)) = (build(n), build(4 * n)) else { return };
+    let (Some(small), Some(big)) = (build(n), build(8 * n)) else { return };
     let time = |bytes: &[u8]| -> Option<u64> {
         let mut best = u64::MAX;
         for _ in 0..3 {
@@ -942,11 +942,11 @@ pub fn scale_probe(w: &mut World, n: usize) {
         Err(p) => w.fail(Class::Hostile, "panic/structure/scale-probe", p),
         Ok((Some(t1), Some(t4))) => {
             w.outcomes.push("scale-probe:ok".into());
-            if t4 > 11 * t1 + 100_000_000 {
+            if t4 > 24 * t1 + 100_000_000 {
                 w.fail(
                     Class::Hostile,
                     "super-linear-time/structure",
-                    format!("{} attributes: {} us, {} attributes: {} us (ratio {:.1})", n, t1 / 1000, 4 * n, t4 / 1000, t4 as f64 / t1.max(1) as f64),
+                    format!("{} attributes: {} us, {} attributes: {} us (ratio {:.1})", n, t1 / 1000, 8 * n, t4 / 1000, t4 as f64 / t1.max(1) as f64),
                 );
             }
         }
